@@ -39,7 +39,8 @@ CsvErrors(exists, rows, cfg) ==
   IF ~exists THEN {"FileNotFoundError"}
   ELSE IF rows = <<>> THEN {"EmptyDataError"}
   ELSE (IF cfg.id # 0 /\ \E i \in 1..Len(rows) : rows[i][cfg.id] = Blank THEN {"ValueError"} ELSE {})
-       \cup (IF cfg.id # 0 /\ \E i, j \in 1..Len(rows) : i # j /\ rows[i][cfg.id] = rows[j][cfg.id] THEN {"DataError"} ELSE {})
+       \cup (IF cfg.id # 0 /\ \E i, j \in 1..Len(rows) : i # j /\ rows[i][cfg.id] # Blank /\ rows[i][cfg.id] = rows[j][cfg.id] THEN {"DataError"} ELSE {})
+       \* (a missing id is not a voter id: two blank cells are "missing values", not a duplicate)
 
 (* Block rows (files of tens of thousands of rows): reps[i] = n > 1 means that row i stands for n consecutive rows with the same cells  *)
 (* except for the voter id, the n - 1 extra ids being fresh, non-blank and distinct from every other id of the file (the harness writes *)
